@@ -376,6 +376,10 @@ class PackageGenerator:
         body: list[str] = []
         if mode == "ann":
             ret_ann = self.pick_type(mod)
+            if self.f("DOCS") and r.random() < 0.2:
+                # several results of distinct plain types: the shape in which docstrings name results individually
+                a_, b_ = r.sample(_BUILTIN_TYPES, 2)
+                ret_ann = f"tuple[{a_}, {b_}]"
             body = ["..."]
         elif mode == "none":
             ret_ann = "None"
